@@ -202,9 +202,15 @@ class TorchTensor(_core.Tensor):
         # Implement tobytes to support native PyTorch types so we can use types like bloat16
         # Reading from memory directly is also more efficient because
         # it avoids copying to a NumPy array
+        if self.dtype.bitwidth < 8:
+            # torch's sub-byte dtypes store one element per byte: pack them
+            return super().tobytes()
         _, data = self._get_cbytes()
         return bytes(data)
 
     def tofile(self, file) -> None:
+        if self.dtype.bitwidth < 8:
+            file.write(self.tobytes())
+            return None
         _, data = self._get_cbytes()
         return file.write(data)
